@@ -898,6 +898,18 @@ func (e *Engine) checkInline(w *Walk) error {
 			if (sid == atree.SlabIDUndefined) != hin {
 				return e.viol("nested container #%d: slab id %s with inlined=%v", n.ID, sid, hin)
 			}
+			// the public predicate agrees with the rule, at the slot limit and one byte either side of the container's size
+			for _, lim := range []uint32{in.SlotLimit, inlinedSize, inlinedSize - 1} {
+				var can bool
+				if n.IsMap {
+					can = n.HM.Inlinable(lim)
+				} else {
+					can = n.HA.Inlinable(lim)
+				}
+				if want := in.Single && inlinedSize <= lim; can != want {
+					return e.viol("nested container #%d: Inlinable(%d)=%v but single-slab=%v and inlined size %d", n.ID, lim, can, in.Single, inlinedSize)
+				}
+			}
 			if !hin && slabIDToValueID(sid) != n.VID {
 				return e.viol("nested container #%d: slab id %s does not match value id %s", n.ID, sid, n.VID)
 			}
